@@ -270,6 +270,7 @@ def run(chk):
     specs = gen(chk)
     risky = [x for x in specs if x[2].get("risky")]
     safe = [x for x in specs if not x[2].get("risky")]
+    clientrun.warm_correspondence(chk, [x[1] for x in safe])
     results = clientrun.run_scenarios(chk, [x[1] for x in safe]) + \
         clientrun.run_scenarios(chk, [x[1] for x in risky], isolated=True)
     for (kind, s, exp), (impl, model, mcase) in zip(safe + risky, results):
